@@ -26,6 +26,7 @@ pub struct Eval {
     pub faulted: bool,
     pub events: Vec<String>,
     pub outcomes: Vec<(bool, u128, u128)>,
+    pub first_ood_step: Option<usize>,
 }
 
 #[derive(Clone, Debug, Default)]
@@ -148,7 +149,7 @@ pub fn run_staking(swarm: &Swarm, given: Option<&[Op]>, mut rng: Option<&mut Rng
     let relevant_ok: u64 = e.stats.op_kinds.iter().filter(|(k, _)| rel.is_empty() || rel.contains(k)).map(|(_, v)| v.1).sum();
     let faulted = e.stats.faults.values().sum::<u64>() > 0;
     let nontrivial = relevant_ok >= 1 && e.stats.tx_ok >= 3;
-    let ev = Eval { viol: e.viol.clone(), hash: e.trace.0, nontrivial, faulted, events: std::mem::take(&mut e.event_log), outcomes: std::mem::take(&mut e.outcomes), stats: e.stats };
+    let ev = Eval { first_ood_step: e.first_ood_step, viol: e.viol.clone(), hash: e.trace.0, nontrivial, faulted, events: std::mem::take(&mut e.event_log), outcomes: std::mem::take(&mut e.outcomes), stats: e.stats };
     (ops, ev)
 }
 
@@ -182,7 +183,10 @@ fn pair_no_oracle(swarm: &Swarm, ops: &[Op], a: &mut Eval, known: &Known) {
             return;
         }
     }
-    let n = a.outcomes.len().min(b.outcomes.len());
+    // beyond a panic outside the C16 domain (e.g. a rate too large for an 18-digit decimal, which only the
+    // oracle path computes) the twins are no longer comparable
+    let cut = a.first_ood_step.unwrap_or(usize::MAX).min(b.first_ood_step.unwrap_or(usize::MAX));
+    let n = a.outcomes.len().min(b.outcomes.len()).min(cut.saturating_sub(1));
     for i in 0..n {
         if a.outcomes[i] != b.outcomes[i] {
             a.viol.push(Violation { prop: "C15", clause: "no_oracle_same_outcomes", step: i + 1, stop: true, msg: format!("step {} ({}) with oracle: ok={} N={} L={}; without oracle: ok={} N={} L={}", i + 1, ops.get(i).map(op_kind).unwrap_or("?"), a.outcomes[i].0, a.outcomes[i].1, a.outcomes[i].2, b.outcomes[i].0, b.outcomes[i].1, b.outcomes[i].2) });
